@@ -93,6 +93,12 @@ func unixMilliToTime(unixMilli int64) time.Time {
 }
 
 func ParseCron(cronExp string) (cron.Schedule, error) {
+	// the parser cuts a time zone prefix off at the first space and panics
+	// when there is none
+	if (strings.HasPrefix(cronExp, "TZ=") || strings.HasPrefix(cronExp, "CRON_TZ=")) && !strings.Contains(cronExp, " ") {
+		return nil, errors.New("expected a schedule after the time zone")
+	}
+
 	return cron.NewParser(cron.SecondOptional | cron.Minute | cron.Hour | cron.Dom | cron.Month | cron.Dow | cron.Descriptor).Parse(cronExp)
 }
 
